@@ -70,6 +70,10 @@ def _make_order_cached(key: str):
         return ConeOrder3D(spec["type"])
     if k == "ice":
         return ConeOrder3DIceCream(spec["deg"], spec["K"])
+    if spec.get("int"):
+        # integer-valued cone matrix handed over with an integer dtype (as in the class docstring's example)
+        W = np.array(spec["W"]).astype(int)
+        return PolyhedralConeOrder(OrderingCone(W if spec["int"] == "array" else W.tolist()))
     return PolyhedralConeOrder(OrderingCone(cone_W(spec)))
 
 
@@ -142,6 +146,24 @@ def st_dyadic_cone(draw, m=None, max_extra=3, den=8):
 
 
 @st.composite
+def st_int_cone(draw, m=None, max_extra=2):
+    """Pointed solid cone with small INTEGER entries, passed to VOPy with an integer dtype (array or nested list)."""
+    if m is None:
+        m = draw(st.sampled_from([2, 2, 3]))
+    rows = []
+    for i in range(m):
+        row = [draw(st.integers(-1, 1)) for _ in range(m)]
+        row[i] = m + draw(st.integers(0, 1))  # strictly diagonally dominant, positive row sum
+        rows.append(row)
+    for _ in range(draw(st.integers(0, max_extra))):
+        row = [draw(st.integers(0, 3)) for _ in range(m)]
+        if sum(row) == 0:
+            row[0] = 1
+        rows.append(row)
+    return {"kind": "W", "W": rows, "int": draw(st.sampled_from(["array", "list"]))}
+
+
+@st.composite
 def st_diag_cone(draw, m=None, max_extra=3):
     """Unit-normal cone around the diagonal, half-angles 5..85 degrees, K = m..m+max_extra facets."""
     if m is None:
@@ -163,12 +185,14 @@ def st_diag_cone(draw, m=None, max_extra=3):
 def st_cone(m=None, exact_only=False, max_extra=3):
     if exact_only:
         return st_dyadic_cone(m, max_extra)
-    return st.one_of(st_bundled(m), st_dyadic_cone(m, max_extra), st_diag_cone(m, max_extra))
+    if m == 4:
+        return st.one_of(st_bundled(m), st_dyadic_cone(m, max_extra), st_diag_cone(m, max_extra))
+    return st.one_of(st_bundled(m), st_dyadic_cone(m, max_extra), st_diag_cone(m, max_extra), st_int_cone(m, min(2, max_extra)))
 
 
 def cone_labels(spec):
     W = cone_W(spec) if spec["kind"] in ("W", "diag") else None
-    lab = ["cone:" + spec["kind"]]
+    lab = ["cone:" + spec["kind"] + ("-int" if spec.get("int") else "")]
     if spec["kind"] == "ice":
         K, m = spec["K"], 3
     elif W is not None:
